@@ -21,6 +21,7 @@ func c19(r *core.Run) {
 	r.Rule("C19/R2", "typed round trip: a prefix read by ExportGenesis and written by InitGenesis holds exactly one type (C18/R1 for that prefix)")
 	r.Rule("C19/R4", "genesis validation: each duplicate-index map of GenesisState.Validate is used for exactly one record kind")
 	r.Rule("C19/R5", "exhaustive export: no function reachable from ExportGenesis uses the SDK pagination helpers (bounded by a default page size), and every iterator loop there is left only when the iterator is exhausted (or by a panic)")
+	r.Rule("C19/R6", "records read for export are decoded into a variable local to the iteration: the generated decoder does not reset its target, so a shared target exports records polluted with the previous record's repeated and empty-on-the-wire fields")
 	r.Rule("C19/R3", "field pairing: every GenesisState field is assigned in ExportGenesis and read in InitGenesis")
 	hs, err := p.Handlers()
 	if err != nil {
@@ -176,6 +177,20 @@ func c19(r *core.Run) {
 		}
 	}
 	r.Floor("C19/R1", nW, 18, "record kinds written by transactions")
+	// R6 exported records are decoded into fresh variables
+	var expFuncs []*ssa.Function
+	seenF := map[*ssa.Function]bool{}
+	for _, m := range core.CustomModules {
+		if _, expFn := p.GenesisEntries(m); expFn != nil {
+			for _, fn := range p.Summary(expFn).Funcs {
+				if !seenF[fn] {
+					seenF[fn] = true
+					expFuncs = append(expFuncs, fn)
+				}
+			}
+		}
+	}
+	staleDecodeTargets(r, "C19/R6", expFuncs)
 	r.Floor("C19/R5", nIter, 10, "iterator loops on export paths")
 	// ---- R4 genesis validation keeps one duplicate-index map per record kind
 	nMaps := 0
